@@ -12,6 +12,8 @@
     * `C15_v9_work_paid_by_records`   its work is paid by the records it returns, plus ONE template's worth (the attempt that failed):
                                       no hypothesis on the template — zero-length fields included
     * `C15_v9_flowset_work_paid`      the same at the flowset level (`v9BodyWork`, what the oracle's `workOf` sums)
+    * `C15_v9_work_linear_honest`     without zero-length fields the attempts of a flowset are at most its bytes (and the old `fold` was
+                                      within twice that: `C15_v9_retry_linear_honest` — the defect needed zero-length fields)
     * `C15_v9_retry_work`             the `fold` before the repair: `n·(2k+2)` operations and an EMPTY result on `n` iterations of a
                                       template with `k` free fields in front of a field that does not decode
     * `C15_v9_retry_no_linear_bound`  hence no bound `A·|body| + B·size(result) + C` held before the repair
@@ -85,6 +87,24 @@ theorem C15_v9_other_flowsets_free (c : Config) (st : PState) (id : Nat) (body :
       · exact absurd (Or.inr h) h12
       · simp [h3] at h
       · simp [h]
+
+/-- **C15, first half, V9 data flowset under a template WITHOUT zero-length fields** (at most 65535 fields — `field_count` is a `u16`):
+    the decode attempts are at most the bytes of the flowset body — linear in the input, whatever decodes or not. -/
+theorem C15_v9_work_linear_honest (c : Config) (fs : List TField) (hpos : ∀ f ∈ fs, 1 ≤ f.len) (hk : fs.length ≤ 65535)
+    (body : Bytes) : v9RecWorkStop c fs (body.length / v9TotalSize fs) body ≤ body.length :=
+  Nat.le_trans (v9RecWorkStop_le_iters c fs _ body) (fields_times_iters_le _ _ _ (v9TotalSize_ge fs hpos hk))
+
+/-- … and so was the retrying `fold` (twice that: a clone and an attempt per field): the defect repaired by 4588be7 needed a template
+    whose record size is smaller than its number of fields, i.e. zero-length fields — exactly the hypothesis of `C15_v9_retry_work` -/
+theorem C15_v9_retry_linear_honest (c : Config) (fs : List TField) (hpos : ∀ f ∈ fs, 1 ≤ f.len) (hk : fs.length ≤ 65535)
+    (body : Bytes) : v9RecWorkRetry c fs (body.length / v9TotalSize fs) body ≤ 2 * body.length :=
+  Nat.le_trans (v9RecWorkRetry_le_iters c fs _ body)
+    (Nat.mul_le_mul_left 2 (fields_times_iters_le _ _ _ (v9TotalSize_ge fs hpos hk)))
+
+/-- non-vacuity: the 5-tuple template of ordinary traffic meets the hypotheses -/
+example : (∀ f ∈ ([{ typ := 8, len := 4 }, { typ := 12, len := 4 }, { typ := 7, len := 2 }, { typ := 11, len := 2 }, { typ := 4, len := 1 }] : List TField), 1 ≤ f.len) ∧
+    ([{ typ := 8, len := 4 }, { typ := 12, len := 4 }, { typ := 7, len := 2 }, { typ := 11, len := 2 }, { typ := 4, len := 1 }] : List TField).length ≤ 65535 := by
+  decide
 
 /-! ### before the repair -/
 
